@@ -266,9 +266,10 @@ def decode_file(short, vals, meta):
         return {"kind": "file", "len": ln, "a": a, "b": b, "reads": reads}
     if short == "file_etag_syntax":
         ln = r.u64()
+        _inode, secs, nanos = r.u64(), r.u64(), r.u32()
         if ln > (1 << 26):
             ln = 1000
-        return {"kind": "file", "len": ln, "a": 0, "b": 0, "reads": []}
+        return {"kind": "file", "len": ln, "a": 0, "b": 0, "reads": [], "etag_probe": {"secs": secs, "nanos": nanos}}
     return None
 
 
